@@ -10,6 +10,7 @@ var soupTokens = []string{
 	"(", ")", "[", "]", "{", "}", "#{", "«", "»", "'", "`", "~", "~@", "^", "@",
 	"a", "b", "foo", "+", "-", "->", "nil", "true", "false", "&", "%", ".", ",", "#", "|", "\\",
 	":k", ":", ":a-b", "::", "0", "1", "-1", "42", "0x1F", "0b101", "0o17", "017", "1_000", "9223372036854775807", "9223372036854775808", "-9223372036854775808", "1e3", "1.5", ".5", "0x", "1__0", "08",
+	"\"\u029e \"", "\"\u029ea b\"", "\"\u029e\"", "\"\u029e(\"", " \ufeff", "\ufeff", "a\ufeffb",
 	`""`, `"s"`, `"a\"b"`, `"a\\"`, `"\n"`, `"unterminated`, `"`, `"\q"`, `"\x41"`, `"é"`,
 	"¬", "¬¬", "¬raw¬", "¬a¬¬b¬", "¬{\"k\": 1}¬", "¬unterminated", "¬\n¬",
 	"$x", "$1", "$", "$MODULE", "$a-b_c", "-$x",
